@@ -215,19 +215,19 @@ func (c *Conn) readLoop(ctx context.Context) (header, error) {
 
 		if h.rsv1 && c.readRSV1Illegal(h) || h.rsv2 || h.rsv3 {
 			err := fmt.Errorf("received header with unexpected rsv bits set: %v:%v:%v", h.rsv1, h.rsv2, h.rsv3)
-			c.writeError(StatusProtocolError, err)
+			c.writeError(ctx, StatusProtocolError, err)
 			return header{}, err
 		}
 
 		if !c.client && !h.masked {
 			err := errors.New("received unmasked frame from client")
-			c.writeError(StatusProtocolError, err)
+			c.writeError(ctx, StatusProtocolError, err)
 			return header{}, err
 		}
 
 		if c.client && h.masked {
 			err := errors.New("received masked frame from server")
-			c.writeError(StatusProtocolError, err)
+			c.writeError(ctx, StatusProtocolError, err)
 			return header{}, err
 		}
 
@@ -245,7 +245,7 @@ func (c *Conn) readLoop(ctx context.Context) (header, error) {
 			return h, nil
 		default:
 			err := fmt.Errorf("received unknown opcode %v", h.opcode)
-			c.writeError(StatusProtocolError, err)
+			c.writeError(ctx, StatusProtocolError, err)
 			return header{}, err
 		}
 	}
@@ -314,13 +314,13 @@ func (c *Conn) readFramePayload(ctx context.Context, p []byte) (int, error) {
 func (c *Conn) handleControl(ctx context.Context, h header) (err error) {
 	if h.payloadLength < 0 || h.payloadLength > maxControlPayload {
 		err := fmt.Errorf("received control frame payload with invalid length: %d", h.payloadLength)
-		c.writeError(StatusProtocolError, err)
+		c.writeError(ctx, StatusProtocolError, err)
 		return err
 	}
 
 	if !h.fin {
 		err := errors.New("received fragmented control frame")
-		c.writeError(StatusProtocolError, err)
+		c.writeError(ctx, StatusProtocolError, err)
 		return err
 	}
 
@@ -358,7 +358,7 @@ func (c *Conn) handleControl(ctx context.Context, h header) (err error) {
 	ce, err := parseClosePayload(b)
 	if err != nil {
 		err = fmt.Errorf("received invalid close payload: %w", err)
-		c.writeError(StatusProtocolError, err)
+		c.writeError(ctx, StatusProtocolError, err)
 		return err
 	}
 
@@ -390,7 +390,7 @@ func (c *Conn) reader(ctx context.Context) (_ MessageType, _ io.Reader, err erro
 
 	if h.opcode == opContinuation {
 		err := errors.New("received continuation frame without text or binary frame")
-		c.writeError(StatusProtocolError, err)
+		c.writeError(ctx, StatusProtocolError, err)
 		return 0, nil, err
 	}
 
@@ -495,7 +495,7 @@ func (mr *msgReader) read(p []byte) (int, error) {
 			}
 			if h.opcode != opContinuation {
 				err := errors.New("received new data message without finishing the previous message")
-				mr.c.writeError(StatusProtocolError, err)
+				mr.c.writeError(mr.ctx, StatusProtocolError, err)
 				return 0, err
 			}
 			mr.setFrame(h)
@@ -549,7 +549,7 @@ func (lr *limitReader) Read(p []byte) (int, error) {
 
 	if lr.n == 0 {
 		err := fmt.Errorf("read limited at %v bytes", lr.limit.Load())
-		lr.c.writeError(StatusMessageTooBig, err)
+		lr.c.writeError(lr.c.msgReader.ctx, StatusMessageTooBig, err)
 		return 0, err
 	}
 
@@ -565,7 +565,7 @@ func (lr *limitReader) Read(p []byte) (int, error) {
 		// block is marked final.
 		if err == io.EOF || err == io.ErrUnexpectedEOF {
 			err = fmt.Errorf("read limited at %v bytes", lr.limit.Load())
-			lr.c.writeError(StatusMessageTooBig, err)
+			lr.c.writeError(lr.c.msgReader.ctx, StatusMessageTooBig, err)
 		}
 	}
 	return n, err
